@@ -7,6 +7,7 @@ import (
 	"fmt"
 	"math"
 	"reflect"
+	"runtime"
 	"strings"
 	"sync"
 
@@ -51,7 +52,11 @@ func mkT(shape []int, backing any) tensor.Tensor {
 	// fresh copy so the caller's slice is never shared
 	cp := reflect.MakeSlice(rv.Type(), rv.Len(), rv.Len())
 	reflect.Copy(cp, rv)
-	return tensor.New(tensor.WithShape(shape...), tensor.WithBacking(cp.Interface()))
+	t := tensor.New(tensor.WithShape(shape...), tensor.WithBacking(cp.Interface()))
+	// gorgonia turns the slice into a uintptr and back (storage.AsByteSlice): until the tensor holds
+	// it as a real pointer the copy must stay reachable, or a collection in that window frees it
+	runtime.KeepAlive(cp)
+	return t
 }
 
 // backingOf makes a slice of dt with n elements, element i = conv(f(i)).
